@@ -1,6 +1,7 @@
 package rules
 
 import (
+	"go/constant"
 	"go/token"
 	"go/types"
 	"strings"
@@ -590,7 +591,21 @@ func c06(c *core.Ctx, r *core.Report) {
 							}
 						}
 					case "Reset", "NewTWithOptions":
-						okk = strings.HasPrefix(d, "local:") || strings.HasPrefix(d, "make(") || freshEmptySlice(fn, st.Val)
+						okk = strings.HasPrefix(d, "local:") || strings.HasPrefix(d, "make(") || freshEmptySlice(fn, st.Val) || truncatedToEmpty(st, stack)
+					default:
+						// an unexported helper that only Reset calls (`resetStack`): the same emptying, one frame down
+						if !token.IsExported(name) && core.RelPkg(fn) == tpkg {
+							sites := an.CallSitesOf(c, an.Outermost(fn))
+							onlyReset := len(sites) > 0
+							for _, cs := range sites {
+								if an.Outermost(cs.Parent()).Name() != "Reset" {
+									onlyReset = false
+								}
+							}
+							if onlyReset {
+								okk = strings.HasPrefix(d, "local:") || strings.HasPrefix(d, "make(") || freshEmptySlice(fn, st.Val) || truncatedToEmpty(st, stack)
+							}
+						}
 					}
 					r.Check(okk, core.FuncName(fn)+"#teardownStack", an.Pos(c, in), name+" writes "+d, "cleanup stack written in "+core.FuncName(fn)+" with "+d+": registered cleanups are lost, duplicated or reordered")
 				case an.SameField(fld, tearing):
@@ -861,4 +876,33 @@ func freshEmptySlice(fn *ssa.Function, v ssa.Value) bool {
 		}
 	}
 	return false
+}
+
+// truncatedToEmpty: the store writes `field[:0]` of the very field it stores to — the stack emptied in place, keeping
+// its backing array (whether the dropped entries are zeroed first does not matter for which cleanups run).
+func truncatedToEmpty(st *ssa.Store, fld *types.Var) bool {
+	if !an.SameField(an.FieldOfAddr(st.Addr), fld) {
+		return false
+	}
+	var sl *ssa.Slice
+	for v := st.Val; v != nil && sl == nil; {
+		switch x := v.(type) {
+		case *ssa.Slice:
+			sl = x
+		case *ssa.ChangeType:
+			v = x.X
+		default:
+			v = nil
+		}
+	}
+	if sl == nil || (sl.Low != nil && !isZeroConst(sl.Low)) || sl.High == nil || !isZeroConst(sl.High) {
+		return false
+	}
+	f, _ := an.TerminalField(sl.X)
+	return f != nil && an.SameField(f, fld)
+}
+
+func isZeroConst(v ssa.Value) bool {
+	k, ok := v.(*ssa.Const)
+	return ok && k.Value != nil && k.Value.Kind() == constant.Int && k.Int64() == 0
 }
